@@ -142,3 +142,16 @@ Definition fermion_entry (n : nat) (A : list (list Z)) (r c : nat) : gi :=
 Definition fermion4 (V : nat) (A : list (list Z)) : list (list gi) :=
   let n := Nat.div V 2 in
   map (fun r => map (fun c => fermion_entry n A r c) (seq 0 (2 * n))) (seq 0 (2 * n)).
+
+(* ---------- the explicit basis change W = [[1, i], [1, -i]] (x) 1_n  (W W^* = 2):
+   entries of W * (2 H) and of (fermionic form) * W, both times 4 SJ, as Gaussian integers ---------- *)
+Definition giadd (a b : gi) : gi := (fst a + fst b, snd a + snd b).
+Definition gisub (a b : gi) : gi := (fst a - fst b, snd a - snd b).
+Definition gi_i (a : gi) : gi := (- snd a, fst a).                      (* multiplication by i *)
+Definition twoH (A : list (list Z)) (r c : nat) : gi := (0, 2 * entry A r c).   (* 4 SJ * 2 H = 2 i A4 *)
+Definition W_twoH (n : nat) (A : list (list Z)) (r c : nat) : gi :=
+  if (r <? n)%nat then giadd (twoH A r c) (gi_i (twoH A (n + r) c))
+  else gisub (twoH A (r - n) c) (gi_i (twoH A r c)).
+Definition F_W (n : nat) (A : list (list Z)) (r c : nat) : gi :=
+  if (c <? n)%nat then giadd (fermion_entry n A r c) (fermion_entry n A r (n + c))
+  else gi_i (gisub (fermion_entry n A r (c - n)) (fermion_entry n A r c)).
